@@ -4,6 +4,7 @@ Only property theorems and non-vacuity examples; helper lemmas are in
 `FDAProofs/Lemmas/MFPCA.lean`, the model in `FDAModel/MFPCA.lean`.
 -/
 import FDAProofs.Lemmas.MFPCA
+import FDAModel.Generated.MfpcaBlocks
 import Mathlib.Tactic.IntervalCases
 import Mathlib.Tactic.NormNum
 
@@ -499,5 +500,60 @@ theorem normalize_roundtrip (K : ℕ) (r : ℚ) (hr : r ≠ 0) (mean x : ℕ →
 
 example : inverseTransform 1 2 (fun _ => 1) (fun _ _ => 3) (fun _ _ => 1) 0 0 = 7 :=
   normalize_roundtrip 1 2 (by norm_num) (fun _ => 1) (fun _ => 7) _ _ 0 0 (by norm_num)
+
+/-! ## Tie to the source: the bookkeeping of `mfpca.py` re-parsed on every run -/
+
+/-- **The source's bookkeeping is the model's**: `ddof = 1` in both moments, transposed Cholesky
+factors, `(C.T @ C) @ cov`, cumulated sizes starting at `0`, `start = cum[idx]`, `end = cum[idx+1]`,
+row slice, both normalisation factors, `√weight` / `1` in `inverse_transform` — as re-parsed from
+`mfpca.py` on this run (`harness/c04_translate.py`).  An off-by-one slice, swapped `start`/`end`, a
+dropped factor, `weight` for `√weight`, another `ddof` or product order break this proof. -/
+theorem source_blocks : FDA.Generated.mfpcaBlocks = codedBlockConsts := by
+  decide
+
+/-- With the coded constants the slice of component `p` is `[off p, off p + size_p)` — the offset
+and size `toGrid`, `blockDiag_spec`, `bil_blockDiag`, `product_inner_eq_bilinear` use. -/
+theorem coded_block_range : ∀ (sizes : List ℕ) (p : ℕ), p < sizes.length →
+    blockRangeP codedBlockConsts sizes p = (off sizes p, off sizes p + sizes.getD p 0) := by
+  intro sizes
+  induction sizes with
+  | nil => intro p hp; simp at hp
+  | cons s rest ih =>
+    intro p hp
+    cases p with
+    | zero => simp [blockRangeP, cumP, codedBlockConsts, off]
+    | succ q =>
+      have hq : q < rest.length := by simpa using hp
+      have := ih q hq
+      simp only [blockRangeP, cumP, codedBlockConsts, off, Nat.zero_add, Nat.add_zero, Prod.mk.injEq] at this ⊢
+      obtain ⟨_, h2⟩ := this
+      refine ⟨trivial, ?_⟩
+      simp only [List.take_succ_cons, List.sum_cons, List.getD_cons_succ]
+      omega
+
+/-- The slices tile the stacked index: the first starts at `0`, each starts where the previous
+ends, the last ends at the total number of coefficients. -/
+theorem coded_blocks_tile (sizes : List ℕ) :
+    (blockRangeP codedBlockConsts sizes 0).1 = 0 ∧
+      (∀ p, (blockRangeP codedBlockConsts sizes p).2 = (blockRangeP codedBlockConsts sizes (p + 1)).1) ∧
+      (sizes ≠ [] → (blockRangeP codedBlockConsts sizes (sizes.length - 1)).2 = sizes.sum) := by
+  refine ⟨by simp [blockRangeP, cumP, codedBlockConsts], fun p => by simp [blockRangeP, cumP, codedBlockConsts], ?_⟩
+  intro h
+  have : sizes.length - 1 + 1 = sizes.length := by
+    have := List.length_pos_iff.mpr h; omega
+  simp [blockRangeP, cumP, codedBlockConsts, this]
+
+/-- With the coded constants the parametrised solver matrix, divisor and back-scaling are the
+ones all theorems above are about (`solverMatrix`, `rhoSq`, `r² = weight` / `1`). -/
+theorem coded_bookkeeping (M N : ℕ) (U ξ c : ℕ → ℕ → ℚ) (ν : ℕ → ℚ) (m : ℕ) (w : ℚ) :
+    solverMatrixP codedBlockConsts M N U ξ = solverMatrix M N U ξ ∧
+      rhoSqP codedBlockConsts M N ξ c ν m = rhoSq M N ξ c ν m ∧
+      backScaleSqP codedBlockConsts true w = w ∧ backScaleSqP codedBlockConsts false w = 1 := by
+  refine ⟨?_, ?_, by simp [backScaleSqP, codedBlockConsts], by simp [backScaleSqP, codedBlockConsts]⟩
+  · have hQ : secondMomentD 1 N (center N ξ) = secondMoment N (center N ξ) := by
+      funext j k; simp [secondMomentD, secondMoment]
+    funext i j
+    simp [solverMatrixP, solverMatrix, codedBlockConsts, gramOfFactor, cov, hQ]
+  · simp [rhoSqP, rhoSq, codedBlockConsts, normSqProj, normSqProjOf]
 
 end C04
